@@ -45,8 +45,8 @@ for name, m in sel.items():
             r = subprocess.run([os.path.join(V, 'vtcheck'), prop, '--tier', tier],
                                env=dict(os.environ, VT_REPO=scratch), capture_output=True, text=True)
             keys = [l.strip() for l in r.stdout.splitlines() if l.startswith('  key=')]
-            verdict = {0: 'MISSED', 1: 'CAUGHT', 2: 'INCONCLUSIVE'}.get(r.returncode, 'rc=%d' % r.returncode)
-            summary.append((name, '%s by %s' % (verdict, prop), (keys[0][:150] if keys else r.stdout.strip().splitlines()[-1][:150]) + ('  | tests: ' + tres if tres else '')))
+            verdict = {0: 'MISSED', 2: 'INCONCLUSIVE'}.get(r.returncode, 'ERROR rc=%d' % r.returncode) if not (r.returncode == 1 and 'VIOLATION property=' in r.stdout) else 'CAUGHT'
+            summary.append((name, '%s by %s' % (verdict, prop), (keys[0][:150] if keys else (r.stdout.strip().splitlines() or [r.stderr.strip()[-150:]])[-1][:150]) + ('  | tests: ' + tres if tres else '')))
     finally:
         shutil.rmtree(scratch, ignore_errors=True)
 for s in summary:
